@@ -5,6 +5,7 @@ cd /verif
 declare -A CHECKS=(
  [R1]="C03 C14 C01" [R2]="C06 C03" [R3]="C13 C05 C14" [R4]="C01 C02 C09 C10 C11 C12 C16" [R5]="C07 C15" [R6]="C08 C12" [R7]="C17 C11"
  [R8]="C20 C04 C19" [R9]="C07 C15 C08 C20" [R10]="C08 C20 C12" [R11]="C12 C19 C18" [R12]="C01 C02 C09 C10 C11 C12 C16" [R13]="C14 C01 C03" [R14]="C13 C05 C06 C14"
+ [RW]="C03 C12 C14 C20" [RX]="C07 C18 C19 C08"   # RW: C19 undecided for ja (exit 2)
  [RQ]="C01 C02 C09 C10 C12" [RR]="C13 C05 C14" [RS]="C06 C14" [RT]="C08 C12 C20" [RU]="C07 C08 C20 C18" [RV]="C07 C15 C18 C19 C08"
  [RK]="C15 C20 C07" [RL]="C19 C18 C07" [RM]="C11 C17" [RN]="C11" [RO]="C03 C04 C14 C12" [RP]="C18"   # RK: C12 / C08 undecided (exit 2), RN: C02 / C12 exit 3, RP: C07 exit 2, C15 exit 3 (contracts out of date, no alarm)
  [RF]="C11 C17" [RG]="C01 C02 C09 C10 C11 C12 C16" [RH]="C07 C15 C08 C20 C18 C19" [RI]="C08 C12 C15 C20" [RJ]="C07 C15 C18"
